@@ -7,7 +7,18 @@ use simcore::{Fnv, Json, Rng};
 use std::cell::Cell;
 use std::collections::{BTreeMap, BTreeSet};
 
+pub struct ModelInfo {
+    pub model_sort: usize,
+    pub mor_sort: usize,
+    pub dom_rel: usize,
+    pub cod_rel: usize,
+    pub member_rels: Vec<usize>,
+    pub constants: Vec<usize>,
+    pub n_user_rules: usize,
+}
+
 pub struct Prog {
+    pub model: Option<ModelInfo>,
     pub name: String,
     pub source: String,
     pub program: Program,
@@ -19,22 +30,44 @@ pub struct Prog {
 pub fn load_progs(entries: &[Entry]) -> Result<Vec<Prog>, String> {
     let mut out = Vec::new();
     for e in entries {
+        let mut model = None;
         let program = if let Some(rest) = e.origin.strip_prefix("gen:") {
             let mut it = rest.split(':');
             let seed: u64 = it.next().and_then(|s| s.parse().ok()).ok_or("bad origin")?;
             let index: u64 = it.next().and_then(|s| s.parse().ok()).ok_or("bad origin")?;
             let mut rng = Rng::new(simcore::rng::derive_seed(seed, 4242, index));
             let knobs = lang::gen::GenKnobs::draw(&mut rng);
-            lang::gen::gen_program(&mut rng, &knobs)
+            let program = lang::gen::gen_program(&mut rng, &knobs);
+            if lang::print::program(&program) != e.source {
+                return Err(format!("{}: regenerated program differs from the compiled source", e.name));
+            }
+            program
+        } else if let Some(rest) = e.origin.strip_prefix("genmodel:") {
+            let mut it = rest.split(':');
+            let seed: u64 = it.next().and_then(|s| s.parse().ok()).ok_or("bad origin")?;
+            let index: u64 = it.next().and_then(|s| s.parse().ok()).ok_or("bad origin")?;
+            let mut rng = Rng::new(simcore::rng::derive_seed(seed, 4343, index));
+            let mp = lang::gen::gen_model_program(&mut rng);
+            if mp.text != e.source {
+                return Err(format!("{}: regenerated model program differs from the compiled source", e.name));
+            }
+            model = Some(ModelInfo {
+                model_sort: mp.model_sort,
+                mor_sort: mp.mor_sort,
+                dom_rel: mp.dom_rel,
+                cod_rel: mp.cod_rel,
+                member_rels: mp.member_rels,
+                constants: mp.constants,
+                n_user_rules: mp.n_user_rules,
+            });
+            mp.program
         } else {
             return Err(format!("{}: unsupported origin {}", e.name, e.origin));
         };
-        if lang::print::program(&program) != e.source {
-            return Err(format!("{}: regenerated program differs from the compiled source", e.name));
-        }
         let paths = compile_paths(&program);
         let surjective = !program.has_nonsurjective();
         out.push(Prog {
+            model,
             name: e.name.to_string(),
             source: e.source.to_string(),
             program,
